@@ -4,7 +4,7 @@
    (the formatting round trip, C05) is not part of these statements: what is read back from the
    written file is [map reread rs'].  [known_class] = [] excludes exactly the known findings D5 / D12. *)
 From SLT Require Import Parser Include JudgeSpec Runner Update UpdateSpec UpdateProofs FormatSpec FormatProofs UpdateFile1 UpdateFile3 UpdateFile
-  UpdateText UpdateText3 UpdateText5 UpdateText7 UpdateText8.
+  UpdateText UpdateText3 UpdateText5 UpdateText7 UpdateText8 Unparse FsTrim RunMeaning UpdateEndToEnd.
 
 (* the rewritten record, as read back from the file, is accepted by the judge on the same
    answer, and rewriting it again leaves what is written unchanged *)
@@ -121,3 +121,51 @@ Theorem C06_dangling_end_refuted :
     parse default_col rvT F None (src ["statement ok"]%string) = PErr PUnexpectedEOF 2.
 Proof. exact empty_sql_at_end_does_not_reparse. Qed.
 Print Assumptions C06_dangling_end_refuted.
+
+(* ---- END TO END, single file, from the content of the file before the update to its content after it:
+   the written file (1) parses, (2) passes against the same database from the same initial state with exactly the
+   events of the update, and (3) a second update of it reproduces the same bytes, events and no flag.
+   Premises: the known findings are excluded exactly (no_trailing_cr = D16, no flag = D5/D12, dangling_end = D19), the
+   answers are representable (out_repr), commands succeed (cmd_ok), the oracles satisfy their laws. *)
+(* the runner's behaviour depends only on the meaning of the script *)
+Theorem C06_run_depends_on_meaning :
+  forall (re : str -> str -> bool) (substitute : bool -> list (str * str) -> str -> subres) (sc : script)
+         (A B : list record), meaning A = meaning B ->
+    forall st w ev st' w' e,
+      run_multi_e re substitute sc st w A = (ev, st', w', e) ->
+      exists e', run_multi_e re substitute sc st w B = (ev, st', w', e') /\ ending_eq_modloc e e'.
+Proof. exact run_multi_meaning. Qed.
+Print Assumptions C06_run_depends_on_meaning.
+
+(* from the content of the file before the update to the content after it *)
+Theorem C06_end_to_end_source :
+  forall (col : N -> option N) (rv : str -> bool) (re : str -> str -> bool) (sep : str) (strict : bool)
+         (substitute : bool -> list (str * str) -> str -> subres) (sc : script),
+    col_stable col -> escape_valid rv -> escape_law re ->
+    forall (file : str) (upper : option loc) (main : str) (s : str) (rs : list record)
+           (st0 : rstate) (w0 : world) (written : list (str * list N)) (ev : list event),
+      no_trailing_cr s ->
+      parse col rv file upper s = POk rs ->
+      strict = strict_cols (cfg st0) ->
+      update_loop re sep strict substitute sc false rs [mkItem main []] false st0 w0 [] [] []
+        = UOk written ev [] ->
+      Forall2 (out_repr col sep strict) rs (updated_outputs re sep strict substitute sc rs st0 w0) ->
+      Forall cmd_ok (updated_outputs re sep strict substitute sc rs st0 w0) ->
+      dangling_end (updated_records re sep strict substitute sc rs st0 w0) = false ->
+      exists text R,
+        written = [(main, utf8 text)] /\
+        parse col rv file upper text = POk R /\
+        meaning R = meaning (map reread (updated_records re sep strict substitute sc rs st0 w0)) /\
+        (exists st' w',
+            run_multi re substitute sc st0 w0 R = (ev, st', w', FOk) /\
+            exists e, run_multi_e re substitute sc st0 w0 R = (ev, st', w', e) /\ (e = Finished \/ e = Halted)) /\
+        update_loop re sep strict substitute sc false R [mkItem main []] false st0 w0 [] [] []
+          = UOk written ev [] /\
+        (exists R2 outs2,
+            upd re sep strict substitute sc R 1 false st0 w0 = Some (R2, ev, [], outs2) /\
+            Forall cmd_ok outs2 /\
+            Forall (fun r => display r <> None) R2 /\
+            trim_tail (utf8 (recs_text R2)) = TOk (utf8 text)).
+Proof. exact update_end_to_end_single_source. Qed.
+Print Assumptions C06_end_to_end_source.
+
